@@ -44,17 +44,20 @@ def classify(case, kind):
             cls.add("json-root-types-implicit")
         if case.get("label") == "unused-builtin-variable":
             cls.add("sdl-unreferenced-builtin-scalars")
+        if case.get("label") == "meta-type-fragment":
+            cls.add("json-meta-types-are-schema-types")
     return cls
 
 
 def run(ctx):
     # the real CLI binary, rebuilt from the working tree (incremental), for the twin-project cases; without it the
     # run still covers both routes in-process
-    extra = []
+    import os
+    extra = ["--corpus", os.path.join(vlib.VERIF, "corpus", "C15")]
     try:
         ok, cli = vlib.cli_build(ctx)
         if ok:
-            extra = ["--cli", cli]
+            extra += ["--cli", cli]
         else:
             ctx.notes.append("nitrogql-cli did not build: twin-project cases skipped")
     except Exception as e:  # noqa
